@@ -112,8 +112,11 @@ def others_for(L):
     else:
         ds = [{'widths': [1, 1], 'charges': [[0], [0]], 'edges': [[(0, 0, 'a')], [(0, 0, 'a')], [(0, 0, 'b')]]},
               {'widths': [2, 1], 'charges': [[0, 1], [0]], 'edges': [[(0, 0, 'a'), (0, 1, 'b')], [(0, 0, 'b'), (1, 0, 'b')], [(0, 0, 'a')]]}]
-    # same node-id pool (collides fully), shifted edge-id pool (collides partly)
-    return [build_graph(d, nid_pool=NODE_IDS, eid_pool=EDGE_IDS[2:] + [40, 41]) for d in ds]
+    # same node-id pool (collides fully), shifted edge-id pool (collides partly) ...
+    out = [build_graph(d, nid_pool=NODE_IDS, eid_pool=EDGE_IDS[2:] + [40, 41]) for d in ds]
+    # ... and one graph whose node and edge ids are completely disjoint from everything else
+    out.append(build_graph(ds[1], nid_pool=list(range(100, 120)), eid_pool=list(range(200, 230))))
+    return out
 
 
 def canon_graph(g):
@@ -178,7 +181,7 @@ class GraphSystem(System):
         T.append((('flip',), True, lambda w, ctx: w.flip()))
         big = len(g.edges) > 12
         T.append((('add', 'self'), not big, lambda w, ctx: _do_add(w, copy.deepcopy(w))))
-        for k in range(2):
+        for k in range(3):
             T.append((('add', k), not big, (lambda w, ctx, k=k, L=L: _do_add(w, copy.deepcopy(self.others(L)[k])))))
         return T
 
@@ -199,9 +202,13 @@ class GraphSystem(System):
             rev = {tuple(reversed(w)): c for w, c in p0.items()}
             ctx.check(sym.pequal(rev, p1), 'flip_reverses_every_term', sym.pdiff(p1, rev))
         if op == 'add':
-            other, canon_before = info
-            ctx.check(canon_graph(other) == canon_before, 'add_leaves_other_untouched')
-            ctx.check(sym.pequal(sym.padd(p0, sym.graph_poly(other)), p1), 'add_is_exact_sum', sym.pdiff(p1, sym.padd(p0, sym.graph_poly(other))))
+            other, canon_before, p_other = info
+            if not ctx.check(canon_graph(other) == canon_before, 'add_leaves_other_untouched'):
+                return
+            ctx.check(sym.pequal(sym.padd(p0, p_other), p1), 'add_is_exact_sum', sym.pdiff(p1, sym.padd(p0, p_other)))
+            shared = [k for k in after.nodes if any(after.nodes[k] is n for n in other.nodes.values())] + \
+                     [k for k in after.edges if any(after.edges[k] is e for e in other.edges.values())]
+            ctx.check(not shared, 'sum_shares_no_node_or_edge_object_with_other', shared[:3])
         if op in ('simplify', 'add'):
             # after simplify (add ends with simplify) a second simplify must not change anything
             g2 = copy.deepcopy(after)
@@ -217,8 +224,9 @@ class GraphSystem(System):
 
 def _do_add(w, other):
     cb = canon_graph(other)
+    p_other = sym.graph_poly(other)
     w.add(other)
-    return other, cb
+    return other, cb, p_other
 
 
 SYSTEM = None
@@ -264,7 +272,7 @@ def _space(name, descs, tier, depth):
                          'edge_kinds': list(EDGE_KINDS), 'transitions': ['simplify', 'merge_edges(all mergeable ordered pairs, both directions)',
                                                                           'rename_node_id(every node -> max+1; smallest and end-terminal node also -> -3, 33)',
                                                                           'rename_edge_id(every edge -> max+1; smallest and largest also -> -3, 41)',
-                                                                          'flip', 'add(self copy | 2 colliding graphs)']})
+                                                                          'flip', 'add(self copy | 2 graphs with colliding ids | 1 graph with disjoint ids)']})
 
 
 def spaces(tier, seed):
